@@ -278,7 +278,7 @@ let gen_relation r =
 let gen_multiseg r =
   let bps, nseg, segs, files = gen_relation r in
   let total = (nseg - 1) * bps + (List.length (List.nth segs (nseg - 1)) / bs) in
-  let a = match rint r 6 with 0 -> 0 | 1 -> total - 1 | 2 -> total | 3 -> total + 1 | _ -> rint r (total + 2) in
+  let a = match rint r 9 with 0 -> 0 | 1 -> total - 1 | 2 -> total | 3 -> total + 1 | _ -> rint r (max 1 total) in
   let a = max 0 a in
   let b = match rint r 6 with 0 -> a - 1 | 1 -> a | 2 -> total - 1 | 3 -> total | 4 -> total + 3 | _ -> a + rint r (total + 2) in
   let segnum = if rbool r then 0 else rint r 20 in
@@ -397,7 +397,7 @@ let gen_checksum r k =
         | _ -> c_rec [ "num", string_of_int num; "stored", string_of_int st; "computed", string_of_int c; "valid", c_bool (kind = CGood);
                        "lsn", ZA.to_string (ZA.add (ZA.shift_left (ZA.of_int hi) 32) (ZA.of_int lo)); "lsnstr", Printf.sprintf "%X/%X" hi lo ] in
     emit ~fn:"VerifyPageChecksum" ~tag ~s ~m:(c_res c_cr (verifyPageChecksum { vis = v; tail = t } (zi num))) [ runs_of_bytes v; runs_of_bytes t; string_of_int num ]
-  | 4 | 5 | 6 ->
+  | 4 | 5 ->
     let seg = match rint r 6 with 0 -> 0 | 1 -> 1 | 2 -> 12 | 3 -> 32768 | 4 -> 40000 | _ -> rint r 13 in
     let nb = match rint r 6 with 0 -> 0 | 1 -> 1 | 2 -> 5 | _ -> 1 + rint r 3 in
     let (data, s, _, _, _, _) = gen_cfile r seg nb in
@@ -425,13 +425,16 @@ let gen_checksum r k =
           let nfiles = 1 + rint r 4 in
           let names = List.sort_uniq compare (List.init nfiles (fun _ ->
               let node = pick r [| "1259"; "16384"; "16385"; "2619"; "0"; "007" |] in
-              match rint r 12 with
+              match rint r 14 with
               | 0 | 1 | 2 -> node
               | 3 | 4 | 5 | 6 -> node ^ "." ^ string_of_int (pick r [| 1; 2; 9; 10; 11; 12; 1 + rint r 12 |])
               | 7 -> node ^ pick r [| "_fsm"; "_vm"; "_init"; "_fsm.1"; "_vm.2" |]
-              | 8 -> pick r [| "pg_filenode.map"; "PG_VERSION"; "t3_16384"; "16384.x"; "16384.1.2"; ".1"; "16384."; "4294967296"; "16384.4294967296"; "+5"; "16384.-1"; "16384.a"; "1_6" |]
-              | 9 -> node ^ ".0"
-              | 10 -> "subdir" ^ string_of_int (rint r 3)
+              | 8 | 9 | 10 -> (* near misses of the name pattern *)
+                pick r [| "pg_filenode.map"; "PG_VERSION"; "t3_16384"; "16384.x"; "16384.1.2"; ".1"; "16384."; "4294967296"; "16384.4294967296";
+                          "+5"; "16384.-1"; "16384.a"; "1_6"; "16384.+1"; "16384.1x"; "x16384.1"; "16384.1."; "42949672950"; "16384.42949672950";
+                          "4294967295"; "16384.4294967295"; "16384..1"; " 16384"; "16384 " |]
+              | 11 -> node ^ ".0"
+              | 12 -> "subdir" ^ string_of_int (rint r 3)
               | _ -> "4294967295." ^ string_of_int (rint r 13))) in
           let files = List.map (fun fn ->
               if String.length fn >= 6 && String.sub fn 0 6 = "subdir" then begin
@@ -477,16 +480,11 @@ let gen_case r k =
   | _ -> gen_checksum r (k / 20 * 4 + (k mod 20 - 16))
 
 let gen seed n =
-  let t0 = Sys.time () in
   exhaustive_strings ();
-  Printf.eprintf "strings %.1fs\n%!" (Sys.time () -. t0);
   let full = n >= 20000 in
   exhaustive_ranges full;
-  Printf.eprintf "ranges %.1fs\n%!" (Sys.time () -. t0);
   big_ranges full;
-  Printf.eprintf "big %.1fs\n%!" (Sys.time () -. t0);
   gen_nodir ();
   emit ~fn:"ReadBlockRange" ~tag:"missing" ~s:"err:open" ~m:(c_read (readBlockRange None None)) [ "!"; "nil" ];
-  for k = 0 to n - 1 do gen_case (rng_for seed k) k done;
-  Printf.eprintf "random %.1fs\n%!" (Sys.time () -. t0)
+  for k = 0 to n - 1 do gen_case (rng_for seed k) k done
 let () = main gen
